@@ -512,6 +512,8 @@ impl Case for C18Case {
     fn execute(&self) -> Verdict {
         let mut v = Verdict::default();
         let mut w = World::booted(sched(self.sched_variant), self.entropy, false);
+        // in a quarter of the cases every Ctrl-C reaches the runtime twice before the next slice
+        w.double_intr = self.entropy % 4 == 1;
         let mut fail: Option<Violation> = None;
         match &self.kind {
             Kind::Loop { fams, outer, full } => {
